@@ -579,3 +579,26 @@ package main
 //@   assert before SetBalancer: [usable] arg2.allInterfaces || (exists k int :: 0 <= k && k < len(ifs) && (ifs[k] in arg2.interfaces))
 //@   loop 1 binds lbIP
 //@   loop 1 invariant c.announcer != nil && lockstate(c.announcer.RWMutex) == 0
+
+// ---- C05: which peers have a session on this node ----
+// PeerRuns: the peer has no node selector, or one of its node selectors matches this node's labels.
+//@ pred PeerRuns(sel []labels.Selector, lbls labels.Set) := len(sel) == 0 || (exists j int :: 0 <= j && j < len(sel) && sel[j].Matches(lbls))
+//@ func passwordForSession
+//@   trusted
+//@   modifies nothing
+// syncPeers (abstracted mode): a session is closed only for a peer this node must not peer with, opened only for one it
+// must peer with (carrying that peer's name, address, ASNs and this node's name), and afterwards no peer that must not
+// run has a session
+//@ func (*bgpController).syncPeers
+//@   abstract
+//@   requires c != nil && (forall k int :: 0 <= k && k < len(c.peers) ==> c.peers[k] != nil && c.peers[k].cfg != nil)
+//@   requires [distinct] forall k1 int, k2 int :: 0 <= k1 && k1 < k2 && k2 < len(c.peers) ==> c.peers[k1] != c.peers[k2]
+//@   assert before Close: [whyClose] !PeerRuns(p.cfg.NodeSelectors, c.nodeLabels)
+//@   assert before NewSession: [whyOpen] PeerRuns(p.cfg.NodeSelectors, c.nodeLabels) && p.session == nil
+//@   assert before NewSession: [params] arg1.SessionName == p.cfg.Name && arg1.PeerASN == p.cfg.ASN && arg1.MyASN == p.cfg.MyASN && arg1.CurrentNode == c.myNode && arg1.PeerPort == p.cfg.Port && arg1.VRFName == p.cfg.VRF
+//@   ensures [onlyRunnable] forall k int :: 0 <= k && k < len(c.peers) && !PeerRuns(c.peers[k].cfg.NodeSelectors, c.nodeLabels) ==> c.peers[k].session == nil
+//@   loop 1 binds p
+//@   loop 1 invariant forall k int :: 0 <= k && k < len(c.peers) ==> c.peers[k] != nil && c.peers[k].cfg != nil
+//@   loop 1 invariant forall k int :: 0 <= k && k < iter && !PeerRuns(c.peers[k].cfg.NodeSelectors, c.nodeLabels) ==> c.peers[k].session == nil
+//@   loop 2 binds ns
+//@   loop 2 invariant shouldRun == (len(p.cfg.NodeSelectors) == 0) && (forall j int :: 0 <= j && j < iter ==> !p.cfg.NodeSelectors[j].Matches(c.nodeLabels))
